@@ -23,6 +23,8 @@ from orquesta import statuses as st
 from orquesta.specs import native as native_specs
 
 TERMINAL = (st.SUCCEEDED, st.FAILED, st.CANCELED)
+# a status request the lifecycle forbids is "rejected with an error"; these are the error types
+REJECTION = (exc.InvalidWorkflowStatusTransition, exc.InvalidEvent, exc.InvalidStatus, exc.InvalidStatusTransition)
 ACTION_TERMINAL = (st.SUCCEEDED, st.FAILED, st.EXPIRED, st.ABANDONED, st.CANCELED)
 
 
@@ -91,7 +93,7 @@ class Driver(object):
     def _call(self, name, fn, *a, **kw):
         try:
             return fn(*a, **kw)
-        except (exc.InvalidWorkflowStatusTransition,) as e:
+        except REJECTION:
             raise
         except Exception as e:  # noqa
             x = EngineException(name, e)
@@ -108,7 +110,7 @@ class Driver(object):
         if before != st.FAILED:
             try:
                 self._call("request_workflow_status", self.c.request_workflow_status, st.RUNNING)
-            except exc.InvalidWorkflowStatusTransition:
+            except REJECTION:
                 rec["rejected"] = True
         rec["after"] = self.status()
         self._record(rec)
@@ -178,7 +180,7 @@ class Driver(object):
         elif kind == "req":
             try:
                 self._call("request_workflow_status", self.c.request_workflow_status, op["status"])
-            except exc.InvalidWorkflowStatusTransition as e:
+            except REJECTION as e:
                 rec["rejected"] = True
                 rec["reject_msg"] = str(e)
         elif kind == "restore":
@@ -220,18 +222,23 @@ class Driver(object):
             if self.item_task_running:
                 self._upd(tid, route, events.ActionExecutionEvent(st.RUNNING))
             for a in t["actions"]:
-                for s in self._startup():
+                for s in self._startup((tid, route, a["item_id"])):
                     self._upd(tid, route, events.TaskItemActionExecutionEvent(a["item_id"], s))
                 self.inflight.append([tid, route, a["item_id"]])
                 self.dispatched.append((tid, route, a["item_id"]))
         else:
-            for s in self._startup():
+            for s in self._startup((tid, route, None)):
                 self._upd(tid, route, events.ActionExecutionEvent(s))
             self.inflight.append([tid, route, None])
             self.dispatched.append((tid, route, None))
 
-    def _startup(self):
-        return [st.RUNNING] if not self.lifecycle else [st.REQUESTED, st.SCHEDULED, st.RUNNING]
+    def _startup(self, key):
+        # The full action lifecycle (requested, scheduled, running) is reported only for the first
+        # dispatch of an action: the task state machine defines those events for a fresh task only
+        # (a retrying task accepts just `running`), so later attempts start with `running`.
+        if not self.lifecycle or key in self.dispatched:
+            return [st.RUNNING]
+        return [st.REQUESTED, st.SCHEDULED, st.RUNNING]
 
     def _report(self, a, status, result, final=True):
         tid, route, item = a
